@@ -137,6 +137,20 @@ func tree(root string) ([]snap.Entry, error) {
 	return res, err
 }
 
+// settle lets background jobs that wait for a (fake-time) timer in the middle of
+// an operation - e.g. a GC pass inside a bbolt batch (MaxBatchDelay) while
+// holding the shard's read lock - run to completion. synctest.Wait alone returns
+// while such a job is parked on its timer, and a following SetMode would block on
+// the mutex forever: a goroutine waiting for a mutex is not "durably blocked", so
+// fake time could never advance. Three rounds: a job started by a ticker firing
+// at the very end of one round finishes in the next.
+func settle() {
+	for i := 0; i < 3; i++ {
+		time.Sleep(7 * time.Millisecond)
+		synctest.Wait()
+	}
+}
+
 func TestC43ModeSwitches(t *testing.T) {
 	rec := ev.New("C43", "mode-switches")
 	defer rec.Flush()
@@ -407,7 +421,7 @@ func runCase(t *rapid.T, rec *ev.Recorder) {
 	}
 
 	setMode := func(target mode.Mode, f string) error {
-		synctest.Wait()
+		settle()
 		prev := sh.GetMode()
 		undo := inject(f)
 		err := sh.SetMode(target)
